@@ -62,22 +62,24 @@ Proof. reflexivity. Qed.
 Section CC.
   Variable cfg : rel_cfg.
   Variable P : registry.
-  Hypothesis Htopo : topo P.
+  (* windowed as in RelTermProofs.v: only ids below K need to be topologically ordered *)
+  Variable K : nat.
+  Hypothesis Htopo : forall id t, id < K -> lookup_type P id = Some t -> forall c, In c (children P t) -> c < id.
 
   (* every id, in range or dangling: fuel > id suffices — one activation per level of the
      (topologically ordered) type graph; `seen` only cuts the walk shorter *)
   Lemma contains_cycle_fuel : forall fuel t seen,
-    t < fuel -> exists r, contains_cycle cfg fuel P seen t = Some r.
+    t < K -> t < fuel -> exists r, contains_cycle cfg fuel P seen t = Some r.
   Proof.
-    induction fuel as [|f IH]; intros t seen Hlt; [lia|].
+    induction fuel as [|f IH]; intros t seen HK Hlt; [lia|].
     rewrite contains_cycle_S.
     destruct (existsb (Nat.eqb t) seen); [eexists; reflexivity|].
     assert (Hkids : forall cs, (forall c, In c cs -> c < t) -> forall seen0,
               exists r, any_child_of (contains_cycle cfg f P) seen0 cs = Some r).
     { intros cs Hcs seen0. apply (any_child_of_ok _ t); [|exact Hcs].
-      intros c s' _ Hc. apply IH. lia. }
+      intros c s' _ Hc. apply IH; lia. }
     destruct (lookup_type P t) as [ty|] eqn:Hl; [|eexists; reflexivity].
-    pose proof (Htopo t ty Hl) as Hch.
+    pose proof (Htopo t ty HK Hl) as Hch.
     destruct ty as [| | |tid|pn fs|p r rc|d|vs|sd rv|rs|v]; try (eexists; reflexivity).
     - destruct (lookup_tuple P tid) as [info|] eqn:Ht; [|eexists; reflexivity].
       apply Hkids. intros c Hc. apply Hch. cbn. rewrite Ht. exact Hc.
@@ -96,7 +98,7 @@ Theorem contains_cycle_terminates : forall cfg P fuel seen t,
 Proof.
   intros cfg P fuel seen t Ht Hf. unfold cc_bound in Hf.
   destruct (lt_dec t (ntypes P)) as [Hin|Hout].
-  - apply contains_cycle_fuel; [apply topob_topo; exact Ht|lia].
+  - apply (contains_cycle_fuel cfg P (ntypes P)); [intros id t0 _ Hl; apply (topob_topo P Ht id t0 Hl)|exact Hin|lia].
   - (* dangling id: not in `seen` => looked up, not found, `false` at once *)
     destruct fuel as [|f]; [lia|]. cbn [contains_cycle].
     destruct (existsb (Nat.eqb t) seen); [eexists; reflexivity|].
